@@ -72,7 +72,7 @@ def gen_gate(rng, n, clifford):
 
 def gen_cases(tier, seed):
     rng = random.Random(3300 + seed)
-    ncase = 300 if tier == "quick" else 6000
+    ncase = 300 if tier == "quick" else 3000
     cases = []
     for i in range(ncase):
         dev, mcm = DEVICES[i % len(DEVICES)]
@@ -556,13 +556,7 @@ def run(tier, seed):
     for r_, m_ in controls:
         traces.append(r_)
         tmeta.append(m_)
-    wd = lib.workdir(PID, "trace")
-    (wd / "traces.json").write_text(json.dumps(traces))
-    r = lib.run_tlc("Trace_Preprocess", lib.cfg(constants={"M": M, "NTRACES": len(traces)}), wd, env={"TRACE_FILE": str(wd / "traces.json")})
-    lib.require_ok(r, "Trace_Preprocess")
-    verd = {t[1]: (t[2], t[3]) for t in r.tuples if t[0] == "V"}
-    if len(verd) != len(traces):
-        raise lib.MachineryError(f"verdicts are not total: {len(verd)} of {len(traces)}")
+    verd, r = ma.validate_traces(PID, "Trace_Preprocess", traces, M)
     vc, rejected_controls = {}, {}
     for i, meta in enumerate(tmeta):
         cl, idx = verd[i + 1]
@@ -588,7 +582,7 @@ def run(tier, seed):
         raise lib.MachineryError(f"negative controls not all exercised: {sorted(rejected_controls)}")
     if vc.get("ok", 0) < 30 or vc.get("rejected", 0) < 10 or st["decomposed_cases"] < 30 or st["dynamic_accepted"] < 5:
         raise lib.MachineryError(f"vacuity: {vc} {st}")
-    cov = {"states": stats["distinct"] + r.distinct, "transitions": stats["generated"] + r.generated,
+    cov = {"states": stats["distinct"] + r["distinct"], "transitions": stats["generated"] + r["generated"],
            "traces_validated_against_impl": len(traces) - len(controls), "evaluations": n_cmp + st["ops_checked"], "distinct_nontrivial": len(nontriv),
            "rule": "distinct accepted (device configuration, program, measurement list) triples whose preprocessed batch was evaluated and whose "
                    "post-processed result agreed with TLC's exact value of the input",
